@@ -20,7 +20,13 @@ func c19Fields(n int) []st.Field {
 		k := nondetInt64()
 		vassume(k >= 0)
 		vassume(k < 1<<12)
-		fs[i].Size = k * a // a valid layout has Size % Align == 0
+		fs[i].Size = k * a // a type's size is a multiple of its alignment ...
+		if i == n-1 && nondetBool() {
+			// ... except that structlayout reports a struct's trailing zero-size
+			// field with size 1 (the byte gc adds) and its real alignment. Such a
+			// field is the last field of the input.
+			fs[i].Size = 1
+		}
 		fs[i].Align = a
 		fs[i].Name = string(rune('a' + i))
 	}
